@@ -411,7 +411,7 @@ func TestC06(t *testing.T) {
 	}
 	seqs.Sub.Note("the enumeration up to length %d (22^0+...+22^%d sequences) is complete over all shards", N, N)
 
-	col.Rapid(seqs.Sub, env.PerShard(env.Pick(20000, 1000000)), func(t *rapid.T) {
+	col.Rapid(seqs.Sub, env.PerShard(env.Pick(40000, 1000000)), func(t *rapid.T) {
 		var seq []int
 		c06GenTree(t, 0, rapid.SampledFrom([]int{2, 4, 8, 40}).Draw(t, "maxdepth"), &seq)
 		seqs.Sub.Class("well-nested")
